@@ -57,6 +57,22 @@ def scenarios(quick: bool) -> list[tuple[dict, int]]:
             "dev": ENV + ("call",),
         }
         sc.append((p, 1 if quick else 2))
+    # nothing ever comes back: the 20 s cap must hold for any timeout, also for a caller queued behind another
+    for tos in ((30.0,), (20.0, 30.0), (30.0, 30.0), (7.5001, 30.0), (30.0, 30.0, 30.0)):
+        for mode in (False, None):
+            p = {
+                "qos_mode": mode,
+                "callers": [caller(f"rq30c9_0{i+1}", timeout=to) for i, to in enumerate(tos)],
+                "env": {"echo": False, "reply": False},
+                "dev": ("call", "disc"),
+            }
+            sc.append((p, 1))
+    # the connection is lost with the error object a serial transport reports / with a clean close
+    for err in ("serial", None):
+        for cmd in ("rq30c9_01", "w2309_01", "i30c9_fake"):
+            for to in (0.5001, 20.0):
+                p = {"qos_mode": False, "callers": [caller(cmd, timeout=to), caller("rq30c9_02", timeout=to)], "dev": ("disc", "drop", "late"), "disc_err": err}
+                sc.append((p, 2))
     if not quick:
         for to in (0.5001, 1.5001, 20.0):
             for wfr in (True, False):
